@@ -11,6 +11,7 @@ a sample is run through the CLI to compare the location PRINTED in error message
 import json
 import os
 import random
+import re
 
 from harness import core
 
@@ -162,10 +163,11 @@ def parse_doc(task, cd, sub=None):
 
 def cli_doc(task, cd):
     from harness import inproc
-    cd.write(task['files'])
-    r = inproc.run_main(['main.case'], cd)
+    d = task.get('dir', '')          # the case file is given with a directory component
+    cd.write({d + k: v for k, v in task['files'].items()})
+    r = inproc.run_main([d + 'main.case'], cd)
     return dict(exit=r['exit'], exception=r['exception'], ident=(r['stdout'].splitlines() or [''])[0],
-                stderr=r['stderr'][:700])
+                stderr=r['stderr'][:1500])
 
 
 # ---------------------------------------------------------------- comparison
@@ -265,6 +267,29 @@ def run(ctx):
                      dict(kind='cli', case=c, files=tasks[j]['files'], observed=o, want=want))
     ctx.cov['traces_validated_against_impl'] += len(err_idx)
     ctx.cov['replay']['CLI: printed error location'] = dict(documents=len(err_idx), disagreements=bad)
+    # the CHAIN of locations printed for an error in an included file; the case file is given with a directory
+    # component (every printed path is relative to the current directory, through all levels of inclusion)
+    inc_idx = [j for j, c in enumerate(icases) if c['err'] and c['err'][3] and not c['unspec'] and not has_d11_signature(c)]
+    inc_idx = rnd.sample(inc_idx, min(len(inc_idx), 1500 if quick else 15000))
+    with ctx.pool() as pool:
+        iobs2 = pool.map('harness.props.c07:cli_doc', [dict(files=itasks[j]['files'], dir=('cases/' if n % 4 else ''))
+                                                      for n, j in enumerate(inc_idx)], deadline=60, chunk=16)
+    bad = 0
+    for n, (j, o) in enumerate(zip(inc_idx, iobs2)):
+        ctx.count()
+        c = icases[j]
+        d = 'cases/' if n % 4 else ''
+        kind, f, line, chain = c['err']
+        ident = 'SYNTAX_ERROR' if kind == 'syntax' else 'FILE_ACCESS_ERROR'
+        want = [[os.path.normpath(d + FILE_NAME[cf]), cl] for cf, cl in chain] + [[os.path.normpath(d + FILE_NAME[f]), line]]
+        got = [[os.path.normpath(m.group(1)), int(m.group(2))]
+               for m in re.finditer(r'^(\S+), line (\d+)$', o.get('stderr', ''), re.M)]
+        if o.get('exit') != 65 or o.get('ident') != ident or got != want:
+            bad += 1
+            ctx.fail('PrintedChain main=%s B=%s C=%s' % (' '.join(c['doc']), ' '.join(c['bdoc']), ' '.join(c['cdoc'])),
+                     dict(kind='cli', case=c, files=itasks[j]['files'], dir=d, observed=o, want=want, got=got))
+    ctx.cov['traces_validated_against_impl'] += len(inc_idx)
+    ctx.cov['replay']['CLI: printed chain of inclusion locations'] = dict(documents=len(inc_idx), disagreements=bad)
     # negative controls
     tried = rejected = 0
     good = [j for j, c in enumerate(cases) if not c['err'] and any(c['res'][p] for p in PHASES)]
@@ -301,9 +326,14 @@ def replay(ctx, rec):
     r = rec['record']
     with ctx.pool(workers=1) as pool:
         if r['kind'] == 'cli':
-            o = pool.map('harness.props.c07:cli_doc', [dict(files=r['files'])], deadline=60)[0]
+            o = pool.map('harness.props.c07:cli_doc', [dict(files=r['files'], dir=r.get('dir', ''))], deadline=60)[0]
             print(json.dumps(dict(files=r['files'], want=r['want'], observed=o), indent=1))
-            ok = r['want'] in o.get('stderr', '') and o.get('exit') == 65
+            if isinstance(r['want'], list):
+                got = [[os.path.normpath(m.group(1)), int(m.group(2))]
+                       for m in re.finditer(r'^(\S+), line (\d+)$', o.get('stderr', ''), re.M)]
+                ok = got == r['want'] and o.get('exit') == 65
+            else:
+                ok = r['want'] in o.get('stderr', '') and o.get('exit') == 65
         else:
             o = pool.map('harness.props.c07:parse_doc', [dict(files=r['files'])], deadline=60)[0]
             clause = compare(r['case'], o)
